@@ -93,7 +93,7 @@ let show_err = function
   | ENotFoundHash -> "NFHASH"
   | ENotRec -> "NOTREC"
   | ENotPkg -> "NOTPKG"
-  | ENotFun -> "NOTFUN"
+  | ENotFun -> "OTHER"   (* calling a non-function with arguments: not a dot-path outcome *)
   | EInternal -> "INTERNAL"
   | ECrash -> "CRASH"
   | EFuel -> "FUEL"
@@ -129,6 +129,7 @@ let () =
             | Denied (m, pk) -> "PRIV:" ^ string_of_name m ^ ":" ^ string_of_name pk
             | NotFound -> "NF"
             | NotRecord -> "NOTREC"
+            | NotCallable -> "OTHER"
             | Malformed -> "MALFORMED") ops in
           Printf.printf "%s\t%s\t%s\n" id (String.concat "|" mo) (String.concat "|" so) in
         (match next () with
